@@ -174,8 +174,9 @@ class GeneAggregates(Case):
         tag = "".join("c" if p else "n" for p in pattern)
         self.name = f"GeneInterval aggregates[{tag}]"
         self.call = ("(lambda g: (g.start, g.end, g.is_coding, g.bin, g.get_primary_transcript(), g.get_primary_cds(), "
-                     "g.get_merged_transcript().chromosome_location, len(g.guid_map)))(GeneInterval(kids, "
-                     "gene_type=Biotype.protein_coding))")
+                     "g.get_merged_transcript().chromosome_location, len(g.guid_map), "
+                     "g.get_merged_cds().chromosome_location, g.get_merged_feature().chromosome_location))"
+                     "(GeneInterval(kids, gene_type=Biotype.protein_coding))")
         self.module = "gene.gene"
         self.raises = {"ValidationException": lambda i: count_true([c.flag for c in i.info]) >= 2}
         from .c16_bins import spec_bin
@@ -190,6 +191,9 @@ class GeneAggregates(Case):
             "merged-transcript-is-union-of-exons": lambda i, r: Iff(covers_pos(r[6], i.p),
                                                                     Or(*[And(c.s <= i.p, i.p < c.e) for c in i.info])),
             "one-map-entry-per-transcript": lambda i, r: r[7] == len(i.kids),
+            "merged-cds-is-union-of-cds-blocks": lambda i, r: Iff(covers_pos(r[8], i.p), Or(*[
+                And(c.s <= i.p, i.p < c.s + c.cds) for c in i.info if c.coding])),
+            "merged-feature-is-the-merged-transcript": lambda i, r: Iff(covers_pos(r[9], i.p), covers_pos(r[6], i.p)),
         }
 
     def inputs(self, S):
@@ -205,7 +209,7 @@ class GeneAggregates(Case):
         from pyvc.check import default_observe as o
         from .c02_single import obs_loc
         return [o(r[0]), o(r[1]), o(r[2]), o(r[3]), getattr(r[4], "transcript_id", None), r[5] is None,
-                obs_loc(r[6])[:2], o(r[7])]
+                obs_loc(r[6])[:2], o(r[7]), obs_loc(r[8])[:2], obs_loc(r[9])[:2]]
 
 
 def _spec_bin(a, b):
